@@ -64,17 +64,20 @@ SchemaValidator::SchemaValidator( XMLErrorReporter* const errReporter
     , fSeenNonWhiteSpace(false)
     , fSeenId(false)
     , fTypeStack(0)
+    , fNilStack(0)
     , fMostRecentAttrValidator(0)
     , fErrorOccurred(false)
     , fElemIsSpecified(false)
 {
     fTypeStack = new (fMemoryManager) ValueStackOf<ComplexTypeInfo*>(8, fMemoryManager);
+    fNilStack = new (fMemoryManager) ValueStackOf<bool>(8, fMemoryManager);
 }
 
 SchemaValidator::~SchemaValidator()
 {
     delete fXsiType;
     delete fTypeStack;
+    delete fNilStack;
 
     if (fNotationBuf)
         delete fNotationBuf;
@@ -104,6 +107,9 @@ bool SchemaValidator::checkContent (XMLElementDecl* const elemDecl
     //
     // the top of the type stack always knows best...
     ComplexTypeInfo* currType = fTypeStack->pop();
+    // xsi:nil of *this* element (a child element that ended in between has cleared fNil)
+    if (!fNilStack->empty())
+        fNil = fNilStack->pop();
 
     const SchemaElementDecl::ModelTypes modelType = (currType)
             ? (SchemaElementDecl::ModelTypes)(currType->getContentType())
@@ -340,6 +346,7 @@ void SchemaValidator::reset()
     fSeenNonWhiteSpace = false;
     fSeenId = false;
 	fTypeStack->removeAllElements();
+    fNilStack->removeAllElements();
     delete fXsiType;
     fXsiType = 0;
     fCurrentDatatypeValidator = 0;
@@ -532,6 +539,8 @@ void SchemaValidator::validateElement(const   XMLElementDecl*  elemDef)
 {
     ComplexTypeInfo* elemTypeInfo = ((SchemaElementDecl*)elemDef)->getComplexTypeInfo();
     fTypeStack->push(elemTypeInfo);
+    // remember whether this element was nilled; fNil alone is overwritten by its descendants
+    fNilStack->push(fNilFound && fNil);
     fCurrentDatatypeValidator = (elemTypeInfo)
             ? elemTypeInfo->getDatatypeValidator()
             : ((SchemaElementDecl*)elemDef)->getDatatypeValidator();
@@ -743,6 +752,8 @@ void SchemaValidator::validateElement(const   XMLElementDecl*  elemDef)
     if (fNilFound && (miscFlags & SchemaSymbols::XSD_NILLABLE) == 0 ) {
         fNil = false;
         fNilFound = false;
+        fNilStack->pop();
+        fNilStack->push(false);
         emitError(XMLValid::NillNotAllowed, elemDef->getFullName());
         fErrorOccurred = true;
     }
